@@ -1,6 +1,6 @@
-/- C36 — property theorems (proved ones) and the goals left to the exhaustive tie (`*_goal : Prop`). -/
+/- C36 — property theorems (all proved; the only `def … : Prop` left is `waititer_full`, refuted by `waititer_refuted`). -/
 import TornadoModel.C36.LemmasTimeout
-import TornadoModel.C36.InvWait
+import TornadoModel.C36.InvWaitOut
 namespace TornadoModel.C36
 
 /-! ### chain_future -/
@@ -309,5 +309,32 @@ theorem waititer_next_yields (st : List FState) (args : List Nat) (ops : List Wa
 example : (let s := Wait.run (Wait.init [some (.result 1), some (.exc 9)] [0, 1]) [.next]
     (∀ f ∈ [0, 1], get s.st f ≠ none) ∧ s.ready = [] ∧ Wait.isDone s = false ∧
     (Wait.next s).yielded = [(0, 0), (1, 1)]) := by decide
+
+/-- what the consumer sees (distinct arguments, every schedule): the futures handed out by the successive `next()`
+    calls are exactly one resolved future per yield, carrying the outcome (result / exception / cancellation) of
+    the yielded input, in yield order — plus one pending future while `next()` waits for a completion -/
+theorem waititer_outcomes (st : List FState) (args : List Nat) (ops : List Wait.Op) (hnd : args.Nodup) :
+    let s := Wait.run (Wait.init st args) ops
+    s.outs = s.yielded.map (fun p => Wait.NextOut.fut (get s.st p.1))
+              ++ (if Wait.runningPending s then [Wait.NextOut.fut none] else []) :=
+  Wait.reachO st args ops hnd
+
+/-- … so the (index, outcome) pairs delivered are `Spec.waitYields` of the yielded inputs, themselves a prefix of
+    the completion order (`waititer_partial`) -/
+theorem waititer_yields_spec (st : List FState) (args : List Nat) (ops : List Wait.Op) (hnd : args.Nodup) :
+    let s := Wait.run (Wait.init st args) ops
+    s.yielded.map (fun p => (some p.2, get s.st p.1)) = Spec.waitYields args (s.yielded.map (·.1)) (get s.st) := by
+  intro s
+  have h := Wait.reach st args ops hnd
+  simp only [Spec.waitYields, List.map_map]
+  apply List.map_congr_left
+  intro p hp
+  have := h.iter.w3' p hp
+  rw [h.hargs] at this
+  simp [this]
+
+example : (let s := Wait.run (Wait.init [none, none, none] [2, 0, 1]) [.next, .soon 1 (.exc 4), .set 0 .cancelled, .tick, .next, .tick, .next]
+    s.yielded = [(0, 1), (1, 2)] ∧ s.compl = [0, 1] ∧
+    s.outs = [.fut (some .cancelled), .fut (some (.exc 4)), .fut none] ∧ Wait.runningPending s = true) := by decide
 
 end TornadoModel.C36
